@@ -34,6 +34,7 @@ pub fn light_ctx(check: &str) -> Ctx {
         cur_case: 0,
         exhaustive: false,
         timed_out: false,
+        nonterm: 0,
     }
 }
 
